@@ -3,8 +3,10 @@
 
   seed.py confirm <src-dir> <id> --breaks Cxx [--wt DIR]   src-dir holds patch.diff + demo.cpp|demo.py (+ README.md)
   seed.py detect  <id> [Cxx ...]                            apply seeded/<id>/patch.diff to /repo, run the checks, undo
-  seed.py detect-all                                        every stored change
+  seed.py detect-all [--lanes N] [ids]                      every stored change, on scratch worktrees, frozen copy of the checker
   seed.py table                                             print the catch table (markdown) from the stored results
+  seed.py neutral-confirm <src-dir> <id> --area Cxx         a behaviour-preserving change: builds + tests pass -> /verif/neutral/<id>/
+  seed.py neutral-all [--lanes N] [ids]                     every stored neutral change against every check: all must stay quiet
 
 Not a registered check: this is the bench that measures the checks. `confirm` executes the repository (demo + test
 suite) on a scratch worktree outside /repo and /verif; the checks themselves never do.
@@ -237,6 +239,139 @@ def detect_all(lanes, ids):
         shutil.rmtree(work, ignore_errors=True)
 
 
+NEUTRAL = os.path.join(VERIF, 'neutral')
+
+
+def neutral_confirm(a):
+    """A behaviour-preserving change (patch.diff + README.md in <src>): it must apply to a scratch worktree at the commit
+    of /repo, still build (triage/compile_all.cpp instantiates the header-only templates), and keep the pinned test suite
+    green; then it is stored under /verif/neutral/<id>/.  That the behaviour is preserved is argued in its NOTES.md
+    (differential runs by its author) and re-read by hand when a check reports it."""
+    src = os.path.abspath(a.src)
+    patch = os.path.join(src, 'patch.diff')
+    if not os.path.exists(patch):
+        print('missing patch.diff in', src)
+        return 2
+    own_wt = False
+    wt = a.wt
+    if not wt:
+        wt = tempfile.mkdtemp(prefix='acv-neutral-', dir='/tmp')
+        os.rmdir(wt)
+        rc, out = sh(['git', '-C', REPO, 'worktree', 'add', '--detach', wt, 'HEAD'])
+        if rc:
+            print(out)
+            return 2
+        own_wt = True
+    work = tempfile.mkdtemp(prefix='acv-neutralwork-', dir='/tmp')
+    try:
+        if sh(['git', '-C', wt, 'status', '--porcelain'])[1].strip():
+            print('worktree not clean')
+            return 2
+        head = sh(['git', '-C', wt, 'rev-parse', 'HEAD'])[1].strip()
+        if head != sh(['git', '-C', REPO, 'rev-parse', 'HEAD'])[1].strip():
+            print('worktree is not at the commit of /repo')
+            return 2
+        rc, out = sh(['git', '-C', wt, 'apply', patch])
+        if rc:
+            print('patch does not apply:', out)
+            return 2
+        try:
+            exe = os.path.join(work, 'ca.bin')
+            rcb, outb = sh(['sh', os.path.join(VERIF, 'triage', 'build.sh'), os.path.join(VERIF, 'triage', 'compile_all.cpp'), exe], env={'REPO': wt})
+            rct, outt = sh('/venv/bin/python -m pytest -q -p no:cacheprovider 2>&1 | tail -3', cwd=wt)
+            pytest_line = outt.strip().splitlines()[-1] if outt.strip() else ''
+        finally:
+            sh(['git', '-C', wt, 'checkout', '--', '.'])
+            sh(['git', '-C', wt, 'clean', '-fdq'])
+        ok = rcb == 0 and '34 passed' in pytest_line
+        print('%s: build %s, pytest: %s' % (a.id, 'ok' if rcb == 0 else 'FAILED', pytest_line))
+        if not ok:
+            if rcb:
+                print(outb[-1500:])
+            return 1
+        dst = os.path.join(NEUTRAL, a.id)
+        os.makedirs(dst, exist_ok=True)
+        shutil.copy(patch, os.path.join(dst, 'patch.diff'))
+        if os.path.exists(os.path.join(src, 'README.md')):
+            shutil.copy(os.path.join(src, 'README.md'), os.path.join(dst, 'NOTES.md'))
+        meta = {'id': a.id, 'area': a.area, 'summary': a.summary or '',
+                'files': sorted(set(ln[6:].strip() for ln in open(patch) if ln.startswith('+++ b/'))),
+                'confirmed_on_tree': head, 'ran': {'build of triage/compile_all.cpp with the change': 'ok', 'pytest with the change': pytest_line}}
+        json.dump(meta, open(os.path.join(dst, 'meta.json'), 'w'), indent=1)
+        return 0
+    finally:
+        shutil.rmtree(work, ignore_errors=True)
+        if own_wt:
+            sh(['git', '-C', REPO, 'worktree', 'remove', '--force', wt])
+
+
+def neutral_all(lanes, ids):
+    """every stored behaviour-preserving change against every check: all checks must exit 0."""
+    from concurrent.futures import ThreadPoolExecutor
+    import queue
+    import re
+    work = tempfile.mkdtemp(prefix='seed-neutral-')
+    snap = os.path.join(work, 'verif')
+    shutil.copytree(VERIF, snap, ignore=shutil.ignore_patterns('seeded', 'neutral', 'evidence', '.git', '__pycache__', '.cache'))
+    wts = queue.Queue()
+    made = []
+    try:
+        for i in range(lanes):
+            wt = os.path.join(work, 'wt%d' % i)
+            rc, out = sh(['git', '-C', REPO, 'worktree', 'add', '--detach', wt, 'HEAD'])
+            if rc:
+                print('cannot create worktree:', out)
+                return 2
+            made.append(wt)
+            wts.put(wt)
+        todo = ids or sorted(os.path.basename(os.path.dirname(p)) for p in glob.glob(os.path.join(NEUTRAL, '*', 'meta.json')))
+
+        def one(nid):
+            wt = wts.get()
+            try:
+                patch = os.path.join(NEUTRAL, nid, 'patch.diff')
+                rc, out = sh(['git', '-C', wt, 'apply', patch])
+                if rc:
+                    return nid, None, ['patch does not apply: ' + out[:200]]
+                alarms = {}
+                try:
+                    def chk(p):
+                        r = subprocess.run([sys.executable, os.path.join(snap, 'check.py'), p, '--no-evidence', '--repo', wt], capture_output=True, text=True)
+                        lines = [ln[:400] for ln in (r.stdout + r.stderr).splitlines() if re.match(r'^\S*: %s \[[^\]]+\] ' % p, ln) or ln.startswith('ANALYSIS-ERROR')]
+                        return p, r.returncode, lines
+                    with ThreadPoolExecutor(max_workers=max(2, 16 // lanes)) as ex:
+                        for p, rc_, lines in ex.map(chk, PROPS):
+                            if rc_ != 0:
+                                alarms[p] = {'exit': rc_, 'reports': lines[:6]}
+                finally:
+                    sh(['git', '-C', wt, 'checkout', '--', '.'])
+                    sh(['git', '-C', wt, 'clean', '-fdq'])
+                json.dump({'alarms': alarms, 'checks_run': PROPS, 'tier': 'quick'}, open(os.path.join(NEUTRAL, nid, 'result.json'), 'w'), indent=1)
+                return nid, alarms, []
+            finally:
+                wts.put(wt)
+        bad = 0
+        with ThreadPoolExecutor(max_workers=lanes) as ex:
+            for nid, alarms, errs in ex.map(one, todo):
+                if errs:
+                    print('%-40s NOT RUN: %s' % (nid, errs[0]))
+                    bad += 1
+                elif alarms:
+                    bad += 1
+                    print('%-40s ALARM in %s' % (nid, ','.join(sorted(alarms))))
+                    for p, a_ in sorted(alarms.items()):
+                        for ln in a_['reports'][:2]:
+                            print('      %s' % ln[:260])
+                else:
+                    print('%-40s quiet' % nid)
+        print('neutral-all: %d changes, %d with an alarm or not run' % (len(todo), bad))
+        return 0 if not bad else 1
+    finally:
+        for wt in made:
+            sh(['git', '-C', REPO, 'worktree', 'remove', '--force', wt])
+        shutil.rmtree(work, ignore_errors=True)
+
+
 def stored():
     return sorted(os.path.basename(os.path.dirname(p)) for p in glob.glob(os.path.join(SEEDED, '*', 'meta.json')))
 
@@ -274,7 +409,20 @@ def main():
     da.add_argument('--lanes', type=int, default=4, help='scratch worktrees used in parallel')
     da.add_argument('ids', nargs='*')
     sub.add_parser('table')
+    nc = sub.add_parser('neutral-confirm')
+    nc.add_argument('src')
+    nc.add_argument('id')
+    nc.add_argument('--area', required=True)
+    nc.add_argument('--wt')
+    nc.add_argument('--summary')
+    na = sub.add_parser('neutral-all')
+    na.add_argument('--lanes', type=int, default=4)
+    na.add_argument('ids', nargs='*')
     a = ap.parse_args()
+    if a.cmd == 'neutral-confirm':
+        return neutral_confirm(a)
+    if a.cmd == 'neutral-all':
+        return neutral_all(a.lanes, a.ids)
     if a.cmd == 'confirm':
         return confirm(a)
     if a.cmd == 'detect':
